@@ -3,6 +3,7 @@ package bill
 import (
 	"context"
 	"encoding/json"
+	"errors"
 	"fmt"
 
 	"github.com/invopop/gobl/cal"
@@ -212,6 +213,9 @@ func partyHasTaxIDCode(party *org.Party) bool {
 // After inverting the invoice is recalculated and any differences will raise
 // an error.
 func (inv *Invoice) Invert() error {
+	if inv.Totals == nil {
+		return errors.New("cannot invert an invoice without totals")
+	}
 	payable := inv.Totals.Payable.Invert()
 
 	for _, row := range inv.Lines {
